@@ -221,7 +221,9 @@ func writeManifest(verif string) {
 	var na []map[string]string
 	b, _ := os.ReadFile(filepath.Join(verif, "properties.jsonl"))
 	for _, line := range strings.Split(string(b), "\n") {
-		var pr struct{ ID string `json:"id"` }
+		var pr struct {
+			ID string `json:"id"`
+		}
 		if json.Unmarshal([]byte(line), &pr) != nil || pr.ID == "" {
 			continue
 		}
